@@ -383,6 +383,9 @@ pub trait Val: RefCnt + Clone + Send + Sync + std::fmt::Debug + 'static {
     /// Ledger, by address: for a value the harness knows to be alive but has no handle on (the
     /// value retained inside a `Cache`).
     fn note_owner_addr(_addr: usize, _d: isize) {}
+    /// Start of a sequential program (ids handed out by `none()` of a kind without an empty value
+    /// restart, so that the same program yields the same ids under every strategy).
+    fn program_start() {}
 }
 
 impl<const K: u8> Val for Option<Tp<K>> {
@@ -592,6 +595,68 @@ impl Val for RcOpt {
     }
     fn strong(&self) -> usize {
         self.0.as_ref().map(std::rc::Rc::strong_count).unwrap_or(0)
+    }
+    fn note_owner(&self, _d: isize) {}
+    fn note_guard(&self, _d: isize) {}
+}
+
+/// The non-optional `Rc` kind (the crate's `RefCnt for Rc<T>` itself, `inc` / `dec` included).
+#[derive(Clone, Debug)]
+pub struct RcPlain(pub std::rc::Rc<Payload>);
+
+unsafe impl Send for RcPlain {}
+unsafe impl Sync for RcPlain {}
+
+type RcP = std::rc::Rc<Payload>;
+
+unsafe impl RefCnt for RcPlain {
+    type Base = Payload;
+    fn into_ptr(me: Self) -> *mut Payload {
+        <RcP as RefCnt>::into_ptr(me.0)
+    }
+    fn as_ptr(me: &Self) -> *mut Payload {
+        <RcP as RefCnt>::as_ptr(&me.0)
+    }
+    unsafe fn from_ptr(ptr: *const Payload) -> Self {
+        RcPlain(<RcP as RefCnt>::from_ptr(ptr))
+    }
+    fn inc(me: &Self) -> *mut Payload {
+        <RcP as RefCnt>::inc(&me.0)
+    }
+    unsafe fn dec(ptr: *const Payload) {
+        <RcP as RefCnt>::dec(ptr)
+    }
+}
+
+static RC_NONE_IDS: AtomicU64 = AtomicU64::new(0);
+
+impl Val for RcPlain {
+    const NAME: &'static str = "Rc";
+    fn fresh(id: u64) -> Self {
+        ARC_LIVE.fetch_add(1, Relaxed);
+        ALLOCS.fetch_add(1, Relaxed);
+        RcPlain(std::rc::Rc::new(Payload { cell: UnsafeCell::new([id, !id]), vec: vec![id; 3] }))
+    }
+    fn none() -> Self {
+        // no empty value: an ordinary value with an id of its own
+        Self::fresh(0xEEEE_0000_0000_0000 | RC_NONE_IDS.fetch_add(1, Relaxed))
+    }
+    fn program_start() {
+        RC_NONE_IDS.store(0, Relaxed);
+    }
+    fn vid(&self) -> u64 {
+        let a = &self.0;
+        let [x, y] = unsafe { std::ptr::read_volatile(a.cell.get()) };
+        if x != !y || a.vec.len() != 3 || a.vec[2] != x {
+            report("C01", "payload-corrupt", format!("Rc payload ({:#x},{:#x}) corrupt", x, y));
+        }
+        x
+    }
+    fn addr(&self) -> usize {
+        std::rc::Rc::as_ptr(&self.0) as usize
+    }
+    fn strong(&self) -> usize {
+        std::rc::Rc::strong_count(&self.0)
     }
     fn note_owner(&self, _d: isize) {}
     fn note_guard(&self, _d: isize) {}
